@@ -1,5 +1,5 @@
 """Abstract chains, their byte encoders, data-directory writer, scenario files and the black-box runner."""
-import hashlib, os, re, resource, struct, subprocess
+import hashlib, os, re, resource, struct, subprocess, tempfile
 from . import common as C
 
 COINS = ["bitcoin", "testnet3", "namecoin", "litecoin", "dogecoin", "myriadcoin", "unobtanium", "noteblockchain"]
@@ -149,12 +149,65 @@ class _Done:
         self.returncode, self.stdout, self.stderr = rc, out, err
 
 
-def _run_watch(cmd, env, preexec, timeout, dump):
+_OTHER_FS = []
+
+
+def other_filesystem():
+    """a writable directory on another filesystem than the scratch area (and the default temp dir), or None"""
+    if not _OTHER_FS:
+        here = os.stat(os.environ.get("RBPV_TMP", "/tmp")).st_dev
+        found = None
+        for cand in ("/dev/shm", "/run/shm", C.CACHE, "/var/tmp"):
+            try:
+                if os.path.isdir(cand) and os.access(cand, os.W_OK) and os.stat(cand).st_dev != here:
+                    found = cand
+                    break
+            except OSError:
+                pass
+        _OTHER_FS.append(found)
+    return _OTHER_FS[0]
+
+
+def _communicate_tty(cmd, env, preexec, timeout, cwd):
+    """stdout attached to a pseudo-terminal in raw mode (no newline translation); stderr stays a pipe"""
+    import pty, threading, tty
+    master, slave = pty.openpty()
+    tty.setraw(slave)
+    pr = subprocess.Popen(cmd, stdout=slave, stderr=subprocess.PIPE, env=env, preexec_fn=preexec, cwd=cwd)
+    os.close(slave)
+    chunks = []
+    def pump():
+        while True:
+            try:
+                b = os.read(master, 65536)
+            except OSError:
+                break
+            if not b:
+                break
+            chunks.append(b)
+    t = threading.Thread(target=pump, daemon=True)
+    t.start()
+    try:
+        _, err = pr.communicate(timeout=timeout)
+    except subprocess.TimeoutExpired:
+        pr.kill()
+        _, err = pr.communicate()
+        t.join(2)
+        os.close(master)
+        return _Done(-24, b"".join(chunks), b"TIMEOUT: the run was still alive after %d s and was killed" % timeout)
+    t.join(5)
+    os.close(master)
+    return _Done(pr.returncode, b"".join(chunks), err)
+
+
+def _run_watch(cmd, env, preexec, timeout, dump, cwd=None, tty=False):
     """runs the binary; if it is still alive after `stall` seconds its thread stacks are dumped with gdb (diagnostics of a
     rare stall seen during development), it is killed and the run is repeated once"""
     import time as _t
+    if tty:
+        return _communicate_tty(cmd, env, preexec, timeout, cwd)
     for attempt in (1, 2):
-        pr = subprocess.Popen(cmd, stdout=subprocess.PIPE, stderr=subprocess.PIPE, env=env, preexec_fn=preexec)
+        pr = subprocess.Popen(cmd, stdout=subprocess.PIPE, stderr=subprocess.PIPE, env=env, preexec_fn=preexec, cwd=cwd)
         try:
             out, err = pr.communicate(timeout=min(timeout, 25) if attempt == 1 else timeout)
             return _Done(pr.returncode, out, err)
@@ -261,6 +314,11 @@ class Scenario:
         self.verbose = 0
         self.threads = None
         self.meta = {}
+        # circumstances of the run that no property lets the outcome depend on (see bb.ENV_KINDS): "links" (blk files are absolute
+        # symlinks into a sibling directory), "cwd" (started elsewhere, dump folder given as a relative path), "slash" (paths end
+        # in '/'), "tty" (stdout is a pseudo-terminal), "shm" (dump folder on another filesystem than the temp dir), "leftovers"
+        # ({name: bytes} already in the dump folder), "environ" (extra environment variables)
+        self.env = {}
 
     # --- building ---------------------------------------------------------------------------
     def add_file(self, name, size=None):
@@ -315,8 +373,16 @@ class Scenario:
     # --- implementation side ----------------------------------------------------------------
     def write_dir(self, d):
         os.makedirs(d, exist_ok=True)
+        store = d
+        if self.env.get("links"):
+            # the layout `resolve_path` exists for: the files live elsewhere and the blocks directory holds absolute symlinks to them
+            store = os.path.join(os.path.dirname(os.path.abspath(d)), "archive-of-older-block-files")
+            os.makedirs(store, exist_ok=True)
+            for k, name in enumerate(sorted(self.files)):
+                if self.env["links"] == "all" or k % 2 == 0:
+                    os.symlink(os.path.join(store, name), os.path.join(d, name))
         for name, f in self.files.items():
-            with open(os.path.join(d, name), "wb") as fh:
+            with open(os.path.join(store if os.path.islink(os.path.join(d, name)) else d, name), "wb") as fh:
                 for off, data in f["segs"]:
                     fh.seek(off)
                     fh.write(self._stored(off, data))
@@ -342,10 +408,27 @@ class Scenario:
             if base is None:
                 own_dump = C.scratch()
             dump = os.path.join(base or own_dump, "dump")
+        shm = None
+        if self.env.get("shm") and other_filesystem():
+            shm = tempfile.mkdtemp(prefix="rbpv-", dir=other_filesystem())
+            dump = os.path.join(shm, "dump")
         os.makedirs(dump, exist_ok=True)
+        left = self.env.get("leftovers") or {}
+        for n, data in left.items():
+            with open(os.path.join(dump, n), "wb") as fh:
+                fh.write(data)
         o = self.options()
         o[1] = d
-        cmd = [C.IMPL] + o + [self.callback] + ([dump] if self.callback in ("csvdump", "unspentcsvdump", "balances") else [])
+        dump_arg, cwd = dump, None
+        if self.env.get("cwd"):
+            # started from another directory; the dump folder (and the data directory) are named relative to it
+            cwd = os.path.dirname(os.path.abspath(dump))
+            dump_arg = "./" + os.path.basename(dump) if self.env["cwd"] == "dot" else os.path.basename(dump)
+            if os.path.dirname(os.path.abspath(d)) == cwd:
+                o[1] = os.path.basename(d)
+        if self.env.get("slash"):
+            o[1], dump_arg = o[1] + "/", dump_arg + "/"
+        cmd = [C.IMPL] + o + [self.callback] + ([dump_arg] if self.callback in ("csvdump", "unspentcsvdump", "balances") else [])
         if wrapper:
             cmd = wrapper + cmd
         e = dict(os.environ)
@@ -353,18 +436,26 @@ class Scenario:
             e["RAYON_NUM_THREADS"] = str(self.threads)
         if env:
             e.update(env)
+        e.update(self.env.get("environ") or {})
         r = Result()
         try:
-            p = _run_watch(cmd, e, preexec, timeout, dump)
+            p = _run_watch(cmd, e, preexec, timeout, dump, cwd=cwd, tty=bool(self.env.get("tty")))
             r.exit, r.stdout, r.stderr = p.returncode, p.stdout, p.stderr
             for n in sorted(os.listdir(dump)):
                 with open(os.path.join(dump, n), "rb") as fh:
                     r.files[n] = fh.read()
+            # files that were there before the run: reported separately (they must still be there, unchanged), not as this run's output
+            r.leftovers_damaged = sorted(n for n, data in left.items() if r.files.get(n) != data)
+            for n in left:
+                if n not in r.leftovers_damaged:
+                    del r.files[n]
         finally:
             if own and not keep:
                 C.rmtree(base)
             if own_dump and not keep:
                 C.rmtree(own_dump)
+            if shm:
+                C.rmtree(shm)
         r.cmd = cmd
         return r
 
